@@ -426,6 +426,8 @@ def builtins(I):
     reg('iff', lambda I_, a, k: _iff(I_, a[0], a[1]))
     reg('truthy', lambda I_, a, k: _tv(I_, a[0]))
     reg('eq', lambda I_, a, k: Mo.compare(I_, ast.Eq(), a[0], a[1]))
+    reg('gt', lambda I_, a, k: Mo.compare(I_, ast.Gt(), a[0], a[1]))
+    reg('ge', lambda I_, a, k: Mo.compare(I_, ast.GtE(), a[0], a[1]))
     reg('Pow', lambda I_, a, k: _spec_pow(I_, a[0], a[1]))
     reg('Sqrt', lambda I_, a, k: Mo.power(I_, a[0], 0.5))
     reg('Log', lambda I_, a, k: SV(Mo.LOG(zreal(a[0])), 'real'))
